@@ -6,7 +6,7 @@
 //              position of an equivalent element)
 // mode=exh : case index = block of the enumeration of all tuples with m<=3 sequences of
 //            length 1..4 over values {0,1,2} (exhaustive), mode=exh4: m==4, length 1..3
-// mode=rand: random tuples (m<=10, lengths dense 1..9, around powers of two, very unequal)
+// mode=rand: random tuples (m<=10, sometimes 17..64, lengths dense 1..9, around powers of two, very unequal)
 #include <verif.hpp>
 
 #include <functional>
@@ -174,14 +174,17 @@ static void mode_exh(uint64_t index, unsigned fixed_m, size_t maxlen, uint64_t b
 
 static void mode_rand(Rng& rng, uint64_t) {
     for (int r = 0; r < 60; ++r) {
-        size_t m = 1 + rng.below(rng.chance(1, 6) ? 10 : 6);
+        // mostly few sequences; sometimes many (the first-level sample sort of the
+        // partition handles more than 16 samples differently from small ones)
+        size_t m = rng.chance(1, 8) ? 17 + rng.below(48) : 1 + rng.below(rng.chance(1, 6) ? 10 : 6);
+        bool many = m > 16;
         int universe = (int)rng.pick(std::vector<int>{ 1, 2, 3, 4, 4, 10, 100000 });
         int lenmode = (int)rng.below(4);
         std::vector<std::vector<int> > keys(m);
         for (auto& v : keys) {
             size_t len;
             switch (lenmode) {
-            case 0: len = 1 + rng.below(9); break;
+            case 0: len = 1 + rng.below(many && rng.coin() ? 2 : 9); break;
             case 1: { size_t p = 1u << (1 + rng.below(7)); len = p - 1 + rng.below(3); if (!len) len = 1; break; }
             case 2: len = rng.chance(1, 3) ? 150 + rng.below(100) : 1 + rng.below(2); break;
             default: len = 1 + rng.below(40); break;
@@ -194,7 +197,8 @@ static void mode_rand(Rng& rng, uint64_t) {
         if (verif::want_sample(3)) verif::sample((desc ? "descending " : "ascending ") + tuple_str(keys));
         check_all_types(keys, desc);
         verif::count("random_tuples");
-        verif::cover("rand:m=" + std::to_string(m) + ":lenmode=" + std::to_string(lenmode) +
+        if (many) verif::count("tuples_with_more_than_16_sequences");
+        verif::cover("rand:m=" + (many ? std::string(">16") : std::to_string(m)) + ":lenmode=" + std::to_string(lenmode) +
                      ":universe=" + std::to_string(universe) + (desc ? ":desc" : ":asc"));
     }
 }
